@@ -149,6 +149,18 @@ def oracle_after_library_use(args):
         t.simulate()
         t = mudslide.Ehrenfest(mudslide.models.scattering_models[args["models"][0]](), [-1.0], [15.0], 0, dt=5.0, max_steps=4, seed_sequence=1)
         t.simulate()
+        # the command-line front ends, run in-process (every global flag once)
+        import io
+        import os
+        import tempfile
+        from mudslide.mud import mud_main
+        with tempfile.TemporaryDirectory(prefix="verif-c20-") as td:
+            out = os.path.join(td, "surface.out")
+            for flags in ([], ["-d"]):
+                try:
+                    mud_main(flags + ["surface", "-m", args["models"][0], "-n", "5", "-o", out], file=io.StringIO())
+                except SystemExit:
+                    pass
         for z in (0.0, 0, 0j, np.float64(0.0), np.zeros(3), np.array([0.0, 1e-9, 1e-3, 0.5, 0.0, 3.0])):
             try:
                 v = np.asarray(poisson_prob_scale(z))
@@ -224,7 +236,7 @@ def run(ctx):
     for i in range(ctx.budget(6, 100)):
         ng = int(rng.integers(4, 10))
         gaps = sorted(set([float(10 ** rng.uniform(-14, 1)) for _ in range(ng)] + [9.9e-4, 1.01e-3]))
-        a = {"gaps": gaps, "dt": float(rng.choice([1.0, 0.37, 5.0])), "F": [float(rng.uniform(0.01, 0.1)) for _ in gaps]}
+        a = {"gaps": gaps, "dt": float(rng.choice([1.0, 0.37, 5.0, 50.0, 400.0])), "F": [float(rng.uniform(0.01, 0.1)) for _ in gaps]}
         ok, obs, req, text = oracle_afssh_factor(a)
         ctx.case(("afssh-factor", len(gaps)))
         ctx.count("afssh_factor_gaps", len(gaps))
